@@ -5,7 +5,7 @@
     current source, re-checked on every run). *)
 From Coq Require Import List String Bool Arith.
 From AGH Require Import Base.Conc Model.Guards Proofs.Conc Proofs.LockTable Proofs.LockTablePairs Proofs.LockTableWhole Gen.LockTable Proofs.LockTableInst.
-From AGH Require Import Proofs.ConcGate Proofs.LockTableGate Gen.LockTableAcq Proofs.LockTableGateInst.
+From AGH Require Import Proofs.ConcGate Proofs.LockTableGate Proofs.LockTableGateGen Gen.LockTableAcq Proofs.LockTableGateInst.
 Import ListNotations.
 Local Open Scope string_scope.
 Local Open Scope list_scope.
@@ -351,11 +351,20 @@ Theorem C05_gated_cycles_conflict : forall rank0 rkd sites,
 Proof. exact gated_cycles_conflict. Qed.
 Print Assumptions C05_gated_cycles_conflict.
 
-(** The declarative form for an arbitrary table (no cycle of pairwise
-    compatible sites => no deadlock): see Proofs/LockTableGateGen.v for its
-    status; the two theorems above give the same conclusion from the
-    computable check, which implies this premise. *)
-Definition C05_gate_lock_general_statement : Prop := gate_lock_general_statement.
+(** The declarative form, for an ARBITRARY table: if every cycle of sites
+    contains two sites with conflicting lock sets, no reachable state of any
+    number of conforming threads is deadlocked.  (In a deadlocked state the
+    wait-for relation contains a cycle of distinct threads; their sites form a
+    cycle of sites; two of them would conflict; two distinct threads of one
+    state never do.)  [C05_gated_no_deadlock] is a corollary through
+    [C05_gated_cycles_conflict]. *)
+Theorem C05_gate_lock_general :
+  forall sites,
+    (forall c, incl c sites -> site_cycle c -> has_conflict c = true) ->
+  forall progs, Forall (fun p => conforms_sites sites [] p = true) progs ->
+  forall s, reachable (init progs) s -> ~ deadlocked s.
+Proof. exact gate_lock_general. Qed.
+Print Assumptions C05_gate_lock_general.
 
 (** Non-vacuity.  The shape of the statistics module (gate g; a = unit, b =
     writer): with the flush holding g exclusively the table passes, both
@@ -432,3 +441,76 @@ Example C05_stats_gated_cycle_present :
     forallb (site_ascending gate_rank0) [d1; d2] = false.
 Proof. exact stats_gated_cycle_present. Qed.
 Print Assumptions C05_stats_gated_cycle_present.
+
+(** * Round 4: lease names that flow from the admin API into DNS answers
+
+    (The DHCPv4 model is imported only here: its [state], [step], [event],
+    [checked] would shadow those of the lock machine above.)
+
+    "Every in-flight query still receives a well-formed response" includes the
+    answers the server builds from state an admin request stored.  PTR queries
+    for leased addresses are answered with <lease hostname>.<local domain>
+    (dnsforward.processDHCPAddrs).  Over the DHCPv4 model of C10
+    (Model/Dhcp4.v; [valid_hostname] is netutil.ValidateHostname on ASCII
+    names: labels of 1..63 letters, digits and inner hyphens, at most 253
+    octets, last label not all digits). *)
+
+From AGH Require Import Base.Run Model.Dhcp4 Proofs.Dhcp4Wire.
+
+(** What an accepted static-lease request stores. *)
+Theorem C05_static_add_stores_valid : forall c mac ip host s s',
+  static_add c mac ip host s = (s', RApi true) ->
+  exists h, (h = [] \/ valid_hostname h = true) /\ In (Lease ip mac h true exp_zero) (leases s').
+Proof. exact static_add_stores_valid. Qed.
+Print Assumptions C05_static_add_stores_valid.
+
+Theorem C05_static_update_stores_valid : forall c mac ip host s s',
+  static_update c mac ip host s = (s', RApi true) ->
+  exists h, valid_hostname h = true /\ In (Lease ip mac h true exp_zero) (leases s').
+Proof. exact static_update_stores_valid. Qed.
+Print Assumptions C05_static_update_stores_valid.
+
+(** Any history of DHCP messages, static-lease requests, clock ticks and
+    restarts from the empty server: every lease of the table and of the
+    database file has an empty name or one that passes the validator. *)
+Theorem C05_hosts_valid_reachable : forall c h,
+  (forall l, In l (leases (run c h empty_state)) -> l_host l = [] \/ valid_hostname (l_host l) = true) /\
+  (forall l, In l (disk (run c h empty_state)) -> l_host l = [] \/ valid_hostname (l_host l) = true).
+Proof. exact hosts_valid_reachable. Qed.
+Print Assumptions C05_hosts_valid_reachable.
+
+(** A valid name with a valid local domain appended fits on the wire (every
+    label 1..63 octets, at most 255 octets in wire format) when the two
+    together stay within 253 octets ... *)
+Theorem C05_valid_name_wire_ok : forall h sfx,
+  valid_hostname h = true -> valid_hostname sfx = true ->
+  (length h + length sfx + 1 <= 253)%nat ->
+  wire_ok (ptr_target h sfx) = true.
+Proof. exact valid_name_wire_ok. Qed.
+Print Assumptions C05_valid_name_wire_ok.
+
+(** ... and not otherwise: the validator alone does not make the answer
+    well-formed (the name found by the lease harness on the real code: 250
+    octets, accepted by add_static_lease; with ".lan" 256 octets on the wire). *)
+Theorem C05_valid_name_too_long_refuted :
+  exists h, valid_hostname h = true /\ valid_hostname lan = true /\
+            wire_ok (ptr_target h lan) = false.
+Proof. exact valid_name_too_long_refuted. Qed.
+Print Assumptions C05_valid_name_too_long_refuted.
+
+(** With the guard in processDHCPAddrs (the composed name must pass
+    netutil.ValidateDomainName, else the lease is treated as nameless): every
+    answer that is given fits, whatever octets the lease table holds. *)
+Theorem C05_ptr_answer_wire_ok : forall host sfx t,
+  ptr_answer host sfx = Some t -> wire_ok t = true.
+Proof. exact ptr_answer_wire_ok. Qed.
+Print Assumptions C05_ptr_answer_wire_ok.
+
+Example C05_ptr_answer_examples :
+  (ptr_answer [112; 114; 105; 110; 116; 101; 114] lan = Some [112; 114; 105; 110; 116; 101; 114; 46; 108; 97; 110] /\
+   ptr_answer long_name lan = None /\
+   ptr_answer [102; 46; 46; 100] lan = None /\
+   ptr_answer (repeat 97 64) lan = None /\
+   ptr_answer [102; 46] lan = None)%N.
+Proof. exact ptr_answer_examples. Qed.
+Print Assumptions C05_ptr_answer_examples.
